@@ -1324,7 +1324,19 @@ impl Context {
 
         if let Some(symbols) = scope.symbols.get(&name.node) {
             for symbol in symbols {
-                debug_assert!(overloads.is_empty() || matches!(symbol, ScopeSymbol::Function(_)));
+                // A function may share its name with symbols that are not values as they are skipped here
+                // Any other symbol would hide the overloads gathered so far
+                debug_assert!(
+                    overloads.is_empty()
+                        || matches!(
+                            symbol,
+                            ScopeSymbol::Function(_)
+                                | ScopeSymbol::Type(_)
+                                | ScopeSymbol::ConstantBuffer(_)
+                                | ScopeSymbol::Namespace(_)
+                                | ScopeSymbol::EnumScope(_)
+                        )
+                );
                 match symbol {
                     ScopeSymbol::Function(id) => overloads.push(*id),
                     ScopeSymbol::ConstantBuffer(_) => {}
